@@ -905,6 +905,11 @@ func main() {
 		"thorough adds: every input over {0,1} up to length 6 x every combinator x every parameter 0..len+1 x Next-run, reducers, xslices and 3-way agreement; "+
 		"every consumer stop point and every Next/Peek interleaving (inputs up to length 4); every combinator x fault position 0..len x "+
 		"{source error, callback error, expired ctx, transient, two faults}")
+	onHang = func(lines []string) {
+		res.Fail(vlib.Failure{Source: "monitor", Kind: "c07-hang", What: "the case did not finish within 20 s (a combinator loops for ever)", Case: lines})
+		res.Write(env.Out)
+		os.Exit(0)
+	}
 	var err error
 	model, err = vlib.StartModel(env.Driver, "comb")
 	if err != nil {
